@@ -321,10 +321,101 @@ def rename_selfcalls(vdir, fname, funcs):
     return n_total
 
 
+WL_RE = re.compile(r'_UT\("((?:[^"\\\n]|\\.)*)"\)')
+
+
+def rewrite_wide_literals(vdir):
+    """W pass only: CBMC 6.11 takes the *element count* of a wide string literal for its size in bytes, so every read of
+    L"..." behind the first byte-count/4 characters is reported out of bounds (false alarm).  Each `_UT("abc")` of the
+    library is therefore rewritten to the equivalent array compound literal ((const URI_CHAR[]){_UT('a'),_UT('b'),_UT('c'),0}),
+    with the original text kept in a marker comment; verify_undo() restores and compares it.  What this changes: the
+    object is an (anonymous) array instead of a string literal - same type, same content, same terminator; literal
+    merging/identity, which ISO C leaves unspecified anyway, is not modelled."""
+    n_total = 0
+    d = os.path.join(vdir, "src")
+    for fn in sorted(os.listdir(d)):
+        if not fn.endswith(".c"):
+            continue
+        path = os.path.join(d, fn)
+        text = open(path).read()
+
+        def repl(m):
+            body = m.group(1)
+            chars = re.findall(r"\\.|[^\\]", body)
+            elems = ", ".join("_UT('%s')" % (c if c != "'" else "\\'") for c in chars)
+            return "/*@WL{%s}*/((const URI_CHAR[]){%s%s0})/*@}WL*/" % (m.group(0), elems, ", " if elems else "")
+        new, n = WL_RE.subn(repl, text)
+        if n:
+            open(path, "w").write(new)
+            n_total += n
+    return n_total
+
+
+def parse_waivers():
+    res = []
+    path = os.path.join(VERIF, "iso_c_waivers.txt")
+    if not os.path.exists(path):
+        return res
+    for line in open(path):
+        line = line.strip()
+        if not line or line.startswith("#"):
+            continue
+        parts = [x.strip() for x in line.split("|")]
+        if len(parts) < 5:
+            raise StageError("bad waiver line: " + line)
+        res.append({"file": parts[0], "func": parts[1], "anchor": parts[2], "check": parts[3], "why": parts[4]})
+    return res
+
+
+def inject_waivers(vdir):
+    """switch one named CBMC check off for the top-level statement (of the named function) that contains the anchor"""
+    done = []
+    by_file = {}
+    for w in parse_waivers():
+        by_file.setdefault(w["file"], []).append(w)
+    for fname, ws in by_file.items():
+        path = os.path.join(vdir, "src", fname)
+        text = open(path).read()
+        toks = tokenize(text)
+        inserts = []
+        for w in ws:
+            lo, hi = find_function(text, toks, w["func"])
+            body_s, body_e = toks[lo][3], toks[hi][2]
+            cnt = text.count(w["anchor"], body_s, body_e)
+            if cnt != 1:
+                raise StageError("waiver anchor %r occurs %d times in %s:%s (need 1)" % (w["anchor"], cnt, fname, w["func"]))
+            apos = text.index(w["anchor"], body_s, body_e)
+            lf = _LoopFinder(toks, lo, hi)
+            i = lo + 1
+            found = None
+            while toks[i][1] != "}" or i < hi:
+                if i >= hi:
+                    break
+                j = lf.stmt(i)
+                s_off, e_off = toks[i][2], toks[j - 1][3]
+                if s_off <= apos < e_off:
+                    found = (s_off, e_off)
+                    break
+                i = j
+            if not found:
+                raise StageError("waiver anchor %r: enclosing statement not found" % w["anchor"])
+            pre = '/*@WV{*/\n#pragma CPROVER check push\n#pragma CPROVER check disable "%s"\n/*@}WV*/' % w["check"]
+            post = '/*@WV{*/\n#pragma CPROVER check pop\n/*@}WV*/'
+            inserts.append((found[0], pre))
+            inserts.append((found[1], post))
+            done.append("%s:%s check '%s' waived for the statement containing %r (%s)" % (fname, w["func"], w["check"], w["anchor"], w["why"]))
+        for off, ins in sorted(inserts, key=lambda x: -x[0]):
+            text = text[:off] + ins + text[off:]
+        open(path, "w").write(text)
+    return done
+
+
 def verify_undo(vdir):
     """strip everything the staging added to the variant directory and compare with /repo byte for byte"""
     lc = re.compile(r" " + re.escape(MARK_B) + r".*?" + re.escape(MARK_E) + r" ", re.S)
     rn = re.compile(re.escape("/*@RN{*/__rec/*@}RN*/"))
+    wl = re.compile(r"/\*@WL\{(.*?)\}\*/.*?/\*@\}WL\*/", re.S)
+    wv = re.compile(r"/\*@WV\{\*/.*?/\*@\}WV\*/", re.S)
     for sub in ("src", "include/uriparser"):
         d = os.path.join(REPO, sub)
         for fn in sorted(os.listdir(d)):
@@ -334,7 +425,7 @@ def verify_undo(vdir):
             orig = open(p, "rb").read()
             q = os.path.join(vdir, sub, fn)
             got = open(q, "rb").read().decode("utf-8", "surrogateescape")
-            got = rn.sub("", lc.sub("", got)).encode("utf-8", "surrogateescape")
+            got = wv.sub("", wl.sub(lambda m: m.group(1), rn.sub("", lc.sub("", got)))).encode("utf-8", "surrogateescape")
             if got != orig:
                 raise StageError("staged %s differs from /repo after undoing the injection" % q)
     return True
